@@ -109,4 +109,16 @@ CHECKS = {
         "level_note": "Oracle encoding/json (decode of the emitted literal; literal equality when normalisation is on). With DisableNormalizeUTF8 only well-formedness, content and the escape rules are asserted.",
         "assumptions": ["encoding/json go1.23.5 string escaping/unescaping is the reference"],
     },
+    "C18": {
+        "pkg": "c18", "variants": [PLAIN],
+        "rule": ("rapid draws a text from the document grammar (all whitespace placements, escape and number spellings, numbers beyond float64), optionally with outer whitespace or one single-byte "
+                 "mutation (delete/insert/substitute/truncate), a prefix and indent over {empty, spaces, tab, multi-byte, long} and a destination buffer that is empty or pre-loaded (3 contents incl. 600 bytes); "
+                 "plus nesting depths 9999/10000/10001/20000 of arrays, objects and mixed. Oracle: Compact and Indent append byte-for-byte what encoding/json appends, error iff error, the buffer is unchanged "
+                 "on error; Compact and Indent are idempotent on their own output; HTMLEscape appends a valid text denoting the same value without raw <>& U+2028/9 and leaves the buffer alone for invalid texts; "
+                 "Valid is true for valid texts. Non-trivial = valid text with >= 5 tokens or an invalid text; distinct by hash(text, prefix, indent, preload)."),
+        "technique": "property-based differential testing against encoding/json's Compact/Indent (byte-exact) plus idempotence and HTMLEscape metamorphic relations, over generated and mutated texts (rapid)",
+        "level_text": "Randomised differential/metamorphic exploration of texts x formatting settings x buffer states; exploration level.",
+        "level_note": "Oracle encoding/json go1.23.5 (Compact, Indent, Valid) and the harness recogniser (cross-checked with encoding/json.Valid per case).",
+        "assumptions": ["'equivalent text' for HTMLEscape = same value under encoding/json decoding with last-duplicate-wins objects"],
+    },
 }
